@@ -51,6 +51,10 @@ SCENARIOS = {
                   "closure c", "F:c2s", "F:s2c"],
     "fail@2": ["F:c2s", "X:s2c:9:40", "F:s2c", "F:c2s", "F:s2c"],
     "fail@3": ["F:c2s", "F:s2c", "X:c2s:6:01", "F:c2s", "F:s2c", "F:c2s"],
+    # a peer in middlebox-compatibility mode sends a plaintext ChangeCipherSpec in front of its protected flight (TLS 1.3 only)
+    "ccs-compat": ["F:c2s", "Q:s2c:head:140303000101", "F:s2c", "Q:c2s:head:140303000101", "F:c2s", "F:s2c", "app c 68656c6c6f", "F:c2s", "app s 616263", "F:s2c"],
+    # TLS False Start (TLS <= 1.2): the client sends application data right behind its Finished, before the server's Finished
+    "falsestart": ["F:c2s", "F:s2c", "seths c 255", "app c 474554202f", "app c 0d0a", "seths c 20", "F:c2s", "F:s2c", "F:c2s", "app s 616263", "F:s2c"],
     "bigdata": ["F:c2s", "F:s2c", "F:c2s", "F:s2c", "F:c2s", "app c " + "5a" * 3000, "app c " + "a5" * 17, "F:c2s", "app s " + "11" * 5000, "app s 22", "F:s2c"],
 }
 MODES_QUICK = [("all", ""), ("bytes", "1"), ("bytes", "7"), ("list", "5,1,300,2,64"), ("bytes", "1000")]
@@ -85,6 +89,9 @@ def build_script(cfg, seed, steps, deliver, sendchunk=0, resumed=False):
         elif st.startswith("X:"):
             _, d, off, val = st.split(":")
             s += " ; xor %s %s %s" % (d, off, val)
+        elif st.startswith("Q:"):
+            _, d, where, hx = st.split(":")
+            s += " ; qinj %s %s %s" % (d, where, hx)
         else:
             s += " ; " + st
     return s + " ; wire ; st"
@@ -100,11 +107,15 @@ def run(ck):
     h = ck.cc("h_sess.c", wraps=sesslib.WRAPS)
     drv = ck.ocaml_driver("drv_c18", extract_vo="Extract/Extract_C18.vo", gen_ml=["m_c18"])
     modes = MODES_QUICK if ck.tier == "quick" else MODES_THOROUGH
-    cfgs = ["tls12", "tls13", "tls12_cbc", "tls12_cauth", "tls13_cauth", "tls13c_12s"] if ck.tier == "quick" else list(CONFIGS)
+    cfgs = ["tls12", "tls13", "tls12_cbc", "tls12_cauth", "tls13_cauth", "tls13c_12s", "tls13_big_cauth", "tls12_big_cauth"] if ck.tier == "quick" else [c for c in CONFIGS if "|" not in CONFIGS[c]]
     runs = []   # (key, kind, mode, script)
     for cname in cfgs:
         cfg = CONFIGS[cname]
         for sname, steps in SCENARIOS.items():
+            if sname == "ccs-compat" and "cv=4" not in cfg:
+                continue
+            if sname == "falsestart" and ("cv=4" in cfg or "cv=3,4" in cfg):
+                continue
             for resumed in ((False, True) if sname == "full+data" and "cauth" not in cname else (False,)):
                 key = (cname, sname, resumed)
                 runs.append((key, "canon", None, build_script(cfg, ck.seed, steps, lambda d: "step %s 99" % d, resumed=resumed)))
